@@ -178,6 +178,9 @@ def formula(e: ast.AST, subst=None):
         return ("and" if isinstance(e.op, ast.And) else "or", parts)
     if isinstance(e, ast.UnaryOp) and isinstance(e.op, ast.Not):
         return negate(formula(e.operand, subst))
+    if isinstance(e, ast.IfExp):
+        t = formula(e.test, subst)
+        return ("or", [("and", [t, formula(e.body, subst)]), ("and", [negate(t), formula(e.orelse, subst)])])
     if isinstance(e, ast.Compare) and len(e.ops) == 1:
         a = _atom(e.left, subst)
         b = _atom(e.comparators[0], subst)
@@ -188,6 +191,14 @@ def formula(e: ast.AST, subst=None):
         if isinstance(op, (ast.Is, ast.IsNot)):
             x, y = sorted([a, b])
             return ("lit", f"is({x},{y})", isinstance(op, ast.Is))
+        if isinstance(op, (ast.In, ast.NotIn)) and isinstance(e.comparators[0], (ast.Tuple, ast.List, ast.Set)) \
+                and e.comparators[0].elts and not any(isinstance(x, ast.Starred) for x in e.comparators[0].elts):
+            # membership in a literal collection is a disjunction of equalities
+            f_ = ("or", [formula(ast.Compare(left=e.left, ops=[ast.Eq()], comparators=[x]), subst)
+                         for x in e.comparators[0].elts])
+            if len(f_[1]) == 1:
+                f_ = f_[1][0]
+            return f_ if isinstance(op, ast.In) else negate(f_)
         if isinstance(op, (ast.In, ast.NotIn)):
             return ("lit", f"in({a},{b})", isinstance(op, ast.In))
         if isinstance(op, ast.Lt):
@@ -303,3 +314,27 @@ def entails(cl: Set[Clause], clause: Iterable[Literal]) -> bool:
 
 def contradictory(cl: Set[Clause]) -> bool:
     return frozenset() in cl
+
+
+def consistent_with(cl: Set[Clause], facts: Iterable[Literal]) -> bool:
+    """Can the clause set hold together with the given literal facts?  (unit propagation only:
+    answers False only when propagation derives a contradiction)"""
+    work = set(cl) | {frozenset([l]) for l in facts}
+    while True:
+        units = {next(iter(c)) for c in work if len(c) == 1}
+        if any((a, not p_) in units for a, p_ in units):
+            return False
+        new = set()
+        for c in work:
+            if len(c) == 1:
+                new.add(c)
+                continue
+            if any(l in units for l in c):
+                continue
+            c2 = frozenset(l for l in c if (l[0], not l[1]) not in units)
+            if not c2:
+                return False
+            new.add(c2)
+        if new == work:
+            return True
+        work = new
